@@ -9,9 +9,13 @@ granularity, the permit lifecycles of an SMTP session and of a remote delivery).
 All theorems quantify over every configuration `c` (any directives in the four scopes, any `MaxBuckets`,
 any reap interval) and every schedule `evs : List Ev` — any number of goroutines (`spawn`), any interleaving
 of their limiter operations, time-outs at any pending acquisition, any passage of time and refill ticks, any
-keys.  The only hypothesis is `misuse = false`: no goroutine started a `ReleaseMsg/ReleaseDest` for something
+keys.  Hypotheses: (1) `misuse = false`: no goroutine started a `ReleaseMsg/ReleaseDest` for something
 it had not taken; `C11_session_disciplined` and `C11_remote_disciplined` show that the two users of the limits
-(the SMTP session and the remote delivery) satisfy it on every path.
+(the SMTP session and the remote delivery) satisfy it on every path.  (2) `c.keys.Lawful`: whatever function
+of the source address the code uses as the key of the per-IP bucket set (the full address, the /64 of an IPv6
+address, …), `TakeMsg`, the roll-back inside `TakeMsg` and `ReleaseMsg` use the same one.  The harness reads
+the three key functions off the bucket table of the real `limits.Group` for every address it generates and
+reports `C11/key-law` when they differ; `C11_key_law_needed` shows the hypothesis cannot be dropped.
 -/
 namespace MaddyVerif.Limits
 
@@ -64,25 +68,25 @@ theorem misuse_run (c : Cfg) (s : St) (evs : List Ev) (h : (run c s evs).misuse 
   | nil => exact h
   | cons e es ih => exact misuse_step c s e (ih (step c s e) h)
 
-theorem run_inv (c : Cfg) (s : St) (evs : List Ev) (hi : Inv c s) (h : (run c s evs).misuse = false) :
+theorem run_inv (c : Cfg) (hk : c.keys.Lawful) (s : St) (evs : List Ev) (hi : Inv c s) (h : (run c s evs).misuse = false) :
     Inv c (run c s evs) := by
   induction evs generalizing s with
   | nil => exact hi
   | cons e es ih =>
-    exact ih (step c s e) (step_inv c s e hi (misuse_run c _ es h)) h
+    exact ih (step c s e) (step_inv c hk s e hi (misuse_run c _ es h)) h
 
 /-- Every state reached by a schedule without client misuse satisfies the invariant. -/
-theorem reach_inv (c : Cfg) (evs : List Ev) (h : (run c (St.init c) evs).misuse = false) :
-    Inv c (run c (St.init c) evs) := run_inv c _ evs (inv_init c) h
+theorem reach_inv (c : Cfg) (hk : c.keys.Lawful) (evs : List Ev) (h : (run c (St.init c) evs).misuse = false) :
+    Inv c (run c (St.init c) evs) := run_inv c hk _ evs (inv_init c) h
 
 /-! ## no panic -/
 
 /-- No limit operation ever panics (no mismatched `Release`, no nil limiter, no nil bucket set), in any
 interleaving, for any number of goroutines and keys and any `MaxBuckets`. -/
-theorem C11_no_panic (c : Cfg) (evs : List Ev) (h : (run c (St.init c) evs).misuse = false) :
+theorem C11_no_panic (c : Cfg) (hk : c.keys.Lawful) (evs : List Ev) (h : (run c (St.init c) evs).misuse = false) :
     ∀ t ∈ (run c (St.init c) evs).tasks, t.pc ≠ .panicked := by
   intro t ht hp
-  have := (reach_inv c evs h).t t ht
+  have := (reach_inv c hk evs h).t t ht
   simp [TaskWF, hp] at this
 
 /-! ## accounting: every permit in use is held by exactly one goroutine that will give it back -/
@@ -91,17 +95,19 @@ theorem C11_no_panic (c : Cfg) (evs : List Ev) (h : (run c (St.init c) evs).misu
 roll-back): the occupancy of every `concurrency N` semaphore and the `users` count of every bucket equal the
 number of tokens the goroutines hold according to their control state — outstanding successful takes plus
 the acquisitions of calls in progress that their remaining roll-back / release operations give back. -/
-theorem C11_balanced (c : Cfg) (evs : List Ev) (h : (run c (St.init c) evs).misuse = false) :
+theorem C11_balanced (c : Cfg) (hk : c.keys.Lawful) (evs : List Ev) (h : (run c (St.init c) evs).misuse = false) :
     ∀ tok, counted c tok = true →
       lenOf (run c (St.init c) evs).g tok = total c tok (run c (St.init c) evs).tasks :=
-  (reach_inv c evs h).w
+  (reach_inv c hk evs h).w
 
 /-! ## bound -/
 
 /-- Messages holding a permit in each scope: successful `TakeMsg` / `TakeDest` not yet followed by the
 release call. -/
 def St.holdersAll (s : St) : Nat := (s.tasks.map (fun t => t.outMsg.length)).sum
-def St.holdersIp (s : St) (k : Nat) : Nat := (s.tasks.map (fun t => (t.outMsg.filter (fun p => p.1 == k)).length)).sum
+/-- Messages holding a permit of the per-IP bucket `k`: those whose source address the code maps to key `k`. -/
+def St.holdersIp (c : Cfg) (s : St) (k : Nat) : Nat :=
+  (s.tasks.map (fun t => (t.outMsg.filter (fun p => c.keys.take p.1 == k)).length)).sum
 def St.holdersSrc (s : St) (k : Nat) : Nat := (s.tasks.map (fun t => (t.outMsg.filter (fun p => p.2 == k)).length)).sum
 def St.holdersDst (s : St) (k : Nat) : Nat := (s.tasks.map (fun t => t.outDest.count k)).sum
 
@@ -140,19 +146,20 @@ theorem msg_all_count (c : Cfg) (out : List (Nat × Nat)) (i : Nat) (hi : i < c.
     simp only [msgToks, List.flatMap_cons, List.count_append, List.length_cons] at ih ⊢
     omega
 
-theorem msg_ip_count (c : Cfg) (out : List (Nat × Nat)) (k i : Nat) (hi : i < c.ip.length) :
-    (out.filter (fun p => p.1 == k)).length ≤ (msgToks c out).count (.b .ip k i) := by
+theorem msg_ip_count (c : Cfg) (hk : c.keys.Lawful) (out : List (Nat × Nat)) (k i : Nat) (hi : i < c.ip.length) :
+    (out.filter (fun p => c.keys.take p.1 == k)).length ≤ (msgToks c out).count (.b .ip k i) := by
   induction out with
   | nil => simp
   | cons p out ih =>
     obtain ⟨a, b⟩ := p
     simp only [msgToks, List.flatMap_cons, List.count_append] at ih ⊢
-    by_cases e : a = k
+    by_cases e : c.keys.take a = k
     · subst e
-      have : 0 < (opsToks c (releaseMsgProg c a b)).count (.b .ip a i) := by
+      have : 0 < (opsToks c (releaseMsgProg c a b)).count (.b .ip (c.keys.take a) i) := by
         apply count_pos_of_mem
         simp only [releaseMsgProg, opsToks_append, List.mem_append]
-        exact Or.inl (Or.inr (mem_set_toks c .ip a i hi))
+        rw [(hk a).2]
+        exact Or.inl (Or.inr (mem_set_toks c .ip (c.keys.take a) i hi))
       simp; omega
     · simp [e]; omega
 
@@ -219,42 +226,43 @@ theorem lt_of_getElem? {α : Type} (l : List α) (i : Nat) (x : α) (h : l[i]? =
 
 /-- **Bound.**  In every reachable state, for every directive `concurrency N` (N > 0) of a scope, at most N
 messages hold a permit of that scope (per key for the keyed scopes) — N being the value configured for THAT
-scope: `all` → `c.all`, per source IP → `c.ip`, per sender domain → `c.src`, per destination → `c.dst`. -/
-theorem C11_bound (c : Cfg) (evs : List Ev) (h : (run c (St.init c) evs).misuse = false) :
+scope: `all` → `c.all`, per source IP → `c.ip`, per sender domain → `c.src`, per destination → `c.dst`.  For the
+per-IP scope a message counts for the key the code derives from its source address (`c.keys.take`). -/
+theorem C11_bound (c : Cfg) (hk : c.keys.Lawful) (evs : List Ev) (h : (run c (St.init c) evs).misuse = false) :
     let s := run c (St.init c) evs
     (∀ (i : Nat) (l : Lim), c.all[i]? = some l → l.kind = .sem → 0 < l.n → s.holdersAll ≤ l.n.toNat) ∧
-    (∀ (k i : Nat) (l : Lim), c.ip[i]? = some l → l.kind = .sem → 0 < l.n → s.holdersIp k ≤ l.n.toNat) ∧
+    (∀ (k i : Nat) (l : Lim), c.ip[i]? = some l → l.kind = .sem → 0 < l.n → s.holdersIp c k ≤ l.n.toNat) ∧
     (∀ (k i : Nat) (l : Lim), c.src[i]? = some l → l.kind = .sem → 0 < l.n → s.holdersSrc k ≤ l.n.toNat) ∧
     (∀ (k i : Nat) (l : Lim), c.dst[i]? = some l → l.kind = .sem → 0 < l.n → s.holdersDst k ≤ l.n.toNat) := by
   intro s
-  have hI := reach_inv c evs h
+  have hI := reach_inv c hk evs h
   refine ⟨?_, ?_, ?_, ?_⟩
-  · intro i l hl hk hn
-    have hc : counted c (.g i) = true := by simp [counted, hl, realSem, hk, hn]
+  · intro i l hl hkd hn
+    have hc : counted c (.g i) = true := by simp [counted, hl, realSem, hkd, hn]
     have h1 : s.holdersAll ≤ total c (.g i) s.tasks :=
       sum_le_sum _ _ _ (fun t _ => Nat.le_trans (msg_all_count c t.outMsg i (lt_of_getElem? _ _ _ hl))
         (count_le_toks_msg c t _))
     have h2 : lenOf s.g _ = total c _ s.tasks := hI.w _ hc
     have h3 := lenOf_g_le_cap c s.g hI.g i l hl
     omega
-  · intro k i l hl hk hn
-    have hc : counted c (.b .ip k i) = true := by simp [counted, Cfg.ctors, hl, realSem, hk, hn]
-    have h1 : s.holdersIp k ≤ total c (.b .ip k i) s.tasks :=
-      sum_le_sum _ _ _ (fun t _ => Nat.le_trans (msg_ip_count c t.outMsg k i (lt_of_getElem? _ _ _ hl))
+  · intro k i l hl hkd hn
+    have hc : counted c (.b .ip k i) = true := by simp [counted, Cfg.ctors, hl, realSem, hkd, hn]
+    have h1 : s.holdersIp c k ≤ total c (.b .ip k i) s.tasks :=
+      sum_le_sum _ _ _ (fun t _ => Nat.le_trans (msg_ip_count c hk t.outMsg k i (lt_of_getElem? _ _ _ hl))
         (count_le_toks_msg c t _))
     have h2 : lenOf s.g _ = total c _ s.tasks := hI.w _ hc
     have h3 := lenOf_le_cap c s.g hI.g .ip k i l hl
     omega
-  · intro k i l hl hk hn
-    have hc : counted c (.b .src k i) = true := by simp [counted, Cfg.ctors, hl, realSem, hk, hn]
+  · intro k i l hl hkd hn
+    have hc : counted c (.b .src k i) = true := by simp [counted, Cfg.ctors, hl, realSem, hkd, hn]
     have h1 : s.holdersSrc k ≤ total c (.b .src k i) s.tasks :=
       sum_le_sum _ _ _ (fun t _ => Nat.le_trans (msg_src_count c t.outMsg k i (lt_of_getElem? _ _ _ hl))
         (count_le_toks_msg c t _))
     have h2 : lenOf s.g _ = total c _ s.tasks := hI.w _ hc
     have h3 := lenOf_le_cap c s.g hI.g .src k i l hl
     omega
-  · intro k i l hl hk hn
-    have hc : counted c (.b .dst k i) = true := by simp [counted, Cfg.ctors, hl, realSem, hk, hn]
+  · intro k i l hl hkd hn
+    have hc : counted c (.b .dst k i) = true := by simp [counted, Cfg.ctors, hl, realSem, hkd, hn]
     have h1 : s.holdersDst k ≤ total c (.b .dst k i) s.tasks :=
       sum_le_sum _ _ _ (fun t _ => Nat.le_trans (dest_count c t.outDest k i (lt_of_getElem? _ _ _ hl))
         (count_le_toks_dest c t _))
@@ -277,13 +285,13 @@ theorem quiescent_total (c : Cfg) (s : St) (hq : s.Quiescent) (tok : Tok) : tota
 aborts and time-outs the history contained — every `concurrency N` semaphore (the global ones and those of
 every bucket of every scope) is empty again, and no bucket has users (so each can be reaped and none blocks
 the bucket table). -/
-theorem C11_quiescent_full_capacity (c : Cfg) (evs : List Ev) (h : (run c (St.init c) evs).misuse = false)
+theorem C11_quiescent_full_capacity (c : Cfg) (hk : c.keys.Lawful) (evs : List Ev) (h : (run c (St.init c) evs).misuse = false)
     (hq : (run c (St.init c) evs).Quiescent) :
     let s := run c (St.init c) evs
     (∀ (i : Nat) (l : LimSt), s.g.glob[i]? = some l → l.real → l.len = 0) ∧
     (∀ sc, ∀ b ∈ s.g.bk sc, b.users = 0 ∧ ∀ (i : Nat) (l : LimSt), b.lims[i]? = some l → l.real → l.len = 0) := by
   intro s
-  have hI := reach_inv c evs h
+  have hI := reach_inv c hk evs h
   constructor
   · intro i l hl hr
     have hc : counted c (.g i) = true := by
@@ -335,11 +343,11 @@ theorem C11_semaphore_full_capacity (l : LimSt) (hr : l.real) (h0 : l.len = 0) :
 
 /-- In a quiescent state whose idle buckets are all older than the reap interval, the bucket table never
 refuses a key, however many distinct keys have been seen before (and however small `MaxBuckets` is). -/
-theorem C11_quiescent_bucket_available (c : Cfg) (evs : List Ev) (h : (run c (St.init c) evs).misuse = false)
+theorem C11_quiescent_bucket_available (c : Cfg) (hk : c.keys.Lawful) (evs : List Ev) (h : (run c (St.init c) evs).misuse = false)
     (hq : (run c (St.init c) evs).Quiescent) (sc : Sc) (k : Nat)
     (hold : ∀ b ∈ (run c (St.init c) evs).g.bk sc, c.reap < (b.age : Int)) :
     (bsTake c sc ((run c (St.init c) evs).g.bk sc) k).2 = true := by
-  have hu := (C11_quiescent_full_capacity c evs h hq).2 sc
+  have hu := (C11_quiescent_full_capacity c hk evs h hq).2 sc
   rw [bsTake_eq]
   have hreap : (reap c ((run c (St.init c) evs).g.bk sc)).length ≤ c.maxB := by
     unfold reap
@@ -359,7 +367,7 @@ def takeSeq (c : Cfg) (j : Nat) (cl : Call) : Nat → St → St
   | 0, s => s
   | n + 1, s => call c j (takeSeq c j cl n s) cl
 
-theorem full_capacity_seq (c : Cfg) (evs : List Ev) (h : (run c (St.init c) evs).misuse = false)
+theorem full_capacity_seq (c : Cfg) (hk : c.keys.Lawful) (evs : List Ev) (h : (run c (St.init c) evs).misuse = false)
     (hq : (run c (St.init c) evs).Quiescent) (cl : Call) (L : List Lim) (n : Nat) (hs : CallSpec c cl L)
     (hcap : ∀ l ∈ L, 0 < l.n → n ≤ l.n.toNat) (hmax : 1 ≤ c.maxB)
     (hold : ∀ sc, ∀ b ∈ (run c (St.init c) evs).g.bk sc, c.reap < (b.age : Int)) :
@@ -368,7 +376,7 @@ theorem full_capacity_seq (c : Cfg) (evs : List Ev) (h : (run c (St.init c) evs)
     ∃ t, SoloCtx c (takeSeq c j cl n (step c s .spawn)) j cl n t ∧ t.pc = .idle ∧ (0 < n → t.res = .ok) ∧
       (takeSeq c j cl n (step c s .spawn)).misuse = false := by
   intro s j
-  have hI := reach_inv c evs h
+  have hI := reach_inv c hk evs h
   have key : ∀ m, m ≤ n → ∃ t, SoloCtx c (takeSeq c j cl m (step c s .spawn)) j cl m t ∧
       (takeSeq c j cl m (step c s .spawn)).misuse = false ∧ t.pc = .idle ∧ (0 < m → t.res = .ok) := by
     intro m
@@ -376,7 +384,7 @@ theorem full_capacity_seq (c : Cfg) (evs : List Ev) (h : (run c (St.init c) evs)
     | zero =>
       intro _
       have hs0 : step c s .spawn = { s with tasks := s.tasks ++ [Task.new] } := rfl
-      refine ⟨Task.new, ⟨step_inv c s .spawn hI h, ?_, ?_, ?_, ?_, hmax⟩, h, rfl, by simp⟩
+      refine ⟨Task.new, ⟨step_inv c hk s .spawn hI h, ?_, ?_, ?_, ?_, hmax, hk⟩, h, rfl, by simp⟩
       · intro sc b hb _; exact hold sc b hb
       · intro i t hi ht
         simp only [takeSeq, hs0] at ht
@@ -406,7 +414,7 @@ for ANY ip and sender domain (seen before or not) and every one of the `n` calls
 behind, and `MaxBuckets ≥ 1`.  Afterwards the goroutine's control state accounts for exactly `n` instances of
 the call's permits.  (Every one of the calls returned ok: `takeSeq … m` is a prefix of `takeSeq … n` and the
 theorem applies to every `m ≤ n`.) -/
-theorem C11_full_capacity_sequential (c : Cfg) (evs : List Ev) (h : (run c (St.init c) evs).misuse = false)
+theorem C11_full_capacity_sequential (c : Cfg) (hk : c.keys.Lawful) (evs : List Ev) (h : (run c (St.init c) evs).misuse = false)
     (hq : (run c (St.init c) evs).Quiescent) (ip dom n : Nat)
     (hsem : ∀ l ∈ msgLims c, l.kind = .sem)
     (hcap : ∀ l ∈ msgLims c, 0 < l.n → n ≤ l.n.toNat)
@@ -421,11 +429,11 @@ theorem C11_full_capacity_sequential (c : Cfg) (evs : List Ev) (h : (run c (St.i
       (takeSeq c j (.takeMsg ip dom) n (step c s .spawn)).misuse = false := by
   intro s j
   obtain ⟨t, hx, hpc, hres, hmis⟩ :=
-    full_capacity_seq c evs h hq (.takeMsg ip dom) (msgLims c) n (CallSpec.takeMsg c ip dom hsem) hcap hmax hold
+    full_capacity_seq c hk evs h hq (.takeMsg ip dom) (msgLims c) n (CallSpec.takeMsg c ip dom hsem) hcap hmax hold
   exact ⟨t, hx.tj, hpc, hres, hx.outs, hmis⟩
 
 /-- The same for the destination scope: `n ≤ N` consecutive `TakeDest(d)` calls all return ok. -/
-theorem C11_full_capacity_sequential_dest (c : Cfg) (evs : List Ev) (h : (run c (St.init c) evs).misuse = false)
+theorem C11_full_capacity_sequential_dest (c : Cfg) (hk : c.keys.Lawful) (evs : List Ev) (h : (run c (St.init c) evs).misuse = false)
     (hq : (run c (St.init c) evs).Quiescent) (d n : Nat)
     (hsem : ∀ l ∈ c.dst, l.kind = .sem)
     (hcap : ∀ l ∈ c.dst, 0 < l.n → n ≤ l.n.toNat)
@@ -440,7 +448,7 @@ theorem C11_full_capacity_sequential_dest (c : Cfg) (evs : List Ev) (h : (run c 
       (takeSeq c j (.takeDest d) n (step c s .spawn)).misuse = false := by
   intro s j
   obtain ⟨t, hx, hpc, hres, hmis⟩ :=
-    full_capacity_seq c evs h hq (.takeDest d) c.dst n (CallSpec.takeDest c d hsem) hcap hmax hold
+    full_capacity_seq c hk evs h hq (.takeDest d) c.dst n (CallSpec.takeDest c d hsem) hcap hmax hold
   exact ⟨t, hx.tj, hpc, hres, hx.outs, hmis⟩
 
 /-! ## lifecycles: both users of the limits release exactly what they took, on every path -/
@@ -619,6 +627,61 @@ example : (run exCfg2 (St.init exCfg2) exSched3).misuse = false ∧
     (msgLims exCfg2).all (fun l => l.kind == .sem && decide (2 ≤ l.n.toNat)) = true ∧
     ((takeSeq exCfg2 2 (.takeMsg 9 9) 2 (step exCfg2 (run exCfg2 (St.init exCfg2) exSched3) .spawn)).tasks[2]?.map
       (fun t => (t.outMsg, t.res))) = some ([(9, 9), (9, 9)], .ok) := by decide
+
+/-! ### key derivation of the per-IP scope -/
+
+theorem IpKeys.same_lawful : IpKeys.same.Lawful := fun _ => ⟨rfl, rfl⟩
+
+/-- The key derivation of the pinned tree restricted to the address ids the harness uses: `addr.String()` —
+an IPv4 address (id `a < 150`) and its IPv4-mapped IPv6 form (id `150 + a`) print alike and share a bucket;
+every other address is its own key. -/
+def exKeys : IpKeys :=
+  { take := fun a => if 150 < a ∧ a < 200 then a - 150 else a,
+    undo := fun a => if 150 < a ∧ a < 200 then a - 150 else a,
+    rel := fun a => if 150 < a ∧ a < 200 then a - 150 else a }
+
+theorem exKeys_lawful : exKeys.Lawful := fun _ => ⟨rfl, rfl⟩
+
+/-- `ip concurrency 1` + `source concurrency 1` under `exKeys`. -/
+def exCfg3 : Cfg :=
+  { all := [], ip := [⟨.sem, 1⟩], src := [⟨.sem, 1⟩], dst := [], reap := -1, maxB := 5, keys := exKeys }
+
+/-- The hypotheses with a key function that is not injective: 10.0.0.1 (id 1) holds the permit of its
+bucket; the same host connecting as ::ffff:10.0.0.1 (id 151) parks on that very bucket (key 1, two users),
+an IPv6 client (id 111) is admitted beside them. -/
+example : exCfg3.keys.Lawful ∧
+    let s := run exCfg3 (St.init exCfg3)
+      ([.spawn, .spawn, .spawn, .begin 0 (.takeMsg 1 1)] ++ List.replicate 5 (.go 0) ++
+       [.begin 1 (.takeMsg 151 2)] ++ List.replicate 3 (.go 1) ++
+       [.begin 2 (.takeMsg 111 3)] ++ List.replicate 5 (.go 2))
+    s.misuse = false ∧ s.holdersIp exCfg3 1 = 1 ∧ s.holdersIp exCfg3 111 = 1 ∧
+      lenOf s.g (.use .ip 1) = 2 ∧ lenOf s.g (.b .ip 1 0) = 1 ∧
+      s.tasks.map (·.outMsg) = [[(1, 1)], [], [(111, 3)]] :=
+  ⟨exKeys_lawful, by decide⟩
+
+/-- A group whose roll-back releases the per-IP bucket under another key than the acquisition used (what
+`g.ip.Release(addr.String())` does after `g.ip.TakeContext(ctx, ipKey(addr))`). -/
+def exCfgBadKeys : Cfg :=
+  { all := [], ip := [⟨.sem, 1⟩], src := [⟨.sem, 1⟩], dst := [], reap := -1, maxB := 5,
+    keys := { take := fun a => a, undo := fun a => a + 5000, rel := fun a => a } }
+
+/-- **The key law cannot be dropped.**  With a roll-back key that differs from the acquisition key, a history
+without any client misuse — a message from address 2 gets its per-IP permit, times out on the sender-domain
+limit held by a message from address 1, is rolled back; the other message is released — ends with every
+goroutine idle and nothing outstanding, yet the per-IP semaphore of key 2 is still occupied and its bucket
+still has a user: the permit is lost for good (`C11_quiescent_full_capacity` fails). -/
+theorem C11_key_law_needed :
+    ¬ exCfgBadKeys.keys.Lawful ∧
+    (let s := run exCfgBadKeys (St.init exCfgBadKeys)
+      ([.spawn, .spawn, .begin 0 (.takeMsg 1 1)] ++ List.replicate 5 (.go 0) ++
+       [.begin 1 (.takeMsg 2 1)] ++ List.replicate 4 (.go 1) ++ [.timeout 1] ++ List.replicate 4 (.go 1) ++
+       [.begin 0 (.relMsg 1 1)] ++ List.replicate 3 (.go 0))
+     s.misuse = false ∧
+      s.tasks.all (fun t => t.pc == .idle && t.outMsg.isEmpty && t.outDest.isEmpty) = true ∧
+      s.tasks.map (·.res) = [.ok, .timeout] ∧
+      lenOf s.g (.b .ip 2 0) = 1 ∧ lenOf s.g (.use .ip 2) = 1 ∧ lenOf s.g (.b .ip 1 0) = 0) := by
+  refine ⟨fun h => absurd (h 0).1 (by decide), by decide⟩
+
 
 /-- A session (immediate-reject mode) that is refused by the pipeline after taking its limits, then sends a
 MAIL with an upper-case domain (raw key 1001, normalised 1) that is accepted, then is dropped. -/
